@@ -1284,8 +1284,9 @@ def run_pairs(ctx, case):
 
 
 class Runaway(BaseException):
-    """30 s of this process's own CPU time (ITIMER_VIRTUAL: time spent waiting, or taken by other
-    processes on a loaded machine, does not count) went by inside one history."""
+    """One and the same request was still computing when the CPU budget of its history ran out
+    (30 s of this process's own CPU time - ITIMER_VIRTUAL: time spent waiting, or taken by other
+    processes on a loaded machine, does not count) and again 15 CPU-seconds later."""
 
 
 _GUARD = [False]
@@ -1297,30 +1298,41 @@ def _guarded(fn):
         if _GUARD[0] or threading.current_thread() is not threading.main_thread():
             return fn(ctx, case, *a, **kw)
 
+        state = {"frame": None, "outside": 0}
+
         def on_timer(sig, frame):
+            # which request (frame of Input.send) is the main thread in, if any
             inside = None
             f = frame
             while f is not None:
-                if f.f_code.co_filename.endswith(os.sep + "input.py") and f.f_code.co_name in ("send", "_send", "find_key"):
-                    inside = f.f_code.co_name
+                if f.f_code.co_filename.endswith(os.sep + "input.py") and f.f_code.co_name == "send":
+                    inside = f
                     break
                 f = f.f_back
-            raise Runaway(inside)
+            if inside is not None and inside is state["frame"]:
+                # the very same request was running when the budget ran out the last time
+                raise Runaway("send")
+            if inside is None:
+                state["outside"] += 1
+                if state["outside"] >= 4:
+                    raise Runaway(None)
+            state["frame"] = inside
+            signal.setitimer(signal.ITIMER_VIRTUAL, budget / 2)
+        budget = CPU_BUDGET if not _GUARD[1:] else 2.0      # once a runaway request has been seen, the rest of the run only needs to finish
         old = signal.signal(signal.SIGVTALRM, on_timer)
         _GUARD[0] = True
-        budget = CPU_BUDGET if not _GUARD[1:] else 2.0      # once a runaway request has been seen, the rest of the run only needs to finish
         signal.setitimer(signal.ITIMER_VIRTUAL, budget)
         try:
             return fn(ctx, case, *a, **kw)
         except Runaway as ex:
             if ex.args[0] and not _GUARD[1:]:
                 _GUARD.append("seen")
-                # a single request that computes for 30 CPU-seconds without returning: whatever
-                # its timeout, it neither delivers nor gives up
+                # a single request that computes for 15 CPU-seconds and more without returning:
+                # whatever its timeout, it neither delivers nor gives up
                 ctx.judge(False, case, mech="C08:request-computes-without-returning",
-                          expected="every request returns", got="%d s of CPU time inside Input.%s" % (CPU_BUDGET, ex.args[0]))
+                          expected="every request returns", got="more than %d s of CPU time inside one Input.%s" % (CPU_BUDGET / 2, ex.args[0]))
             elif not _GUARD[1:]:
-                ctx.inconclusive_because("a history used %d s of CPU time outside any request" % CPU_BUDGET)
+                ctx.inconclusive_because("a history used %d s of CPU time outside any request" % (CPU_BUDGET * 2.5))
         finally:
             signal.setitimer(signal.ITIMER_VIRTUAL, 0)
             signal.signal(signal.SIGVTALRM, old)
